@@ -73,5 +73,13 @@ let () = run_table [
          let tr = run_trace cfb_enc cfb_dec sha1 s2k (List.map parse_op (split ';' ops)) { k_pkts = k; k_scopes = [] } in
          String.concat "/" (List.map (fun (b, f) -> s_obs b ^ "|" ^ s_flags f) tr))
     | _ -> failwith "args");
+  (* Spec/Rfc4880_keyprotect.v run directly: usage alg spec halg salt count iv pass mpis -> RFC 4880 5.5.3 secret part *)
+  "rfcpart", (function [u; a; sp; h; salt; c; iv; pass; m] ->
+      let z = z_of_hexnum in
+      let spec = (match int_of_z (z sp) with
+        | 0 -> RSimple (z h) | 1 -> RSalted (z h, bytes_of_hex salt) | _ -> RIterSalted (z h, bytes_of_hex salt, z c)) in
+      let key = s2k (z sp) (z h) (z a) (bytes_of_hex salt) (z c) (bytes_of_hex pass) in
+      hb (rfc_secret_part cfb_enc sha1 (z u) (z a) spec (bytes_of_hex iv) key (nums m))
+    | _ -> failwith "args");
   "zadd", (function [a; b] -> hexnum_of_z (Z.add (z_of_hexnum a) (z_of_hexnum b)) | _ -> failwith "args");
 ]
